@@ -12,7 +12,7 @@ import gzip, json, os, re, shutil, subprocess
 import common
 
 LEAN_MODULES = ['OpusProps.C03']
-EXTENSIONS = ['C03silkresamp', 'C03silkcore']   # extension slices merged into this property's check (tools/EXT_BRIEF.md)
+EXTENSIONS = ['C03silkresamp', 'C03silkcore', 'C03silkpipe']   # extension slices merged into this property's check (tools/EXT_BRIEF.md)
 GEN = ['SilkIcdf', 'SilkSyms', 'CeltTables']
 SOURCES = ['silk/dec_API.c', 'silk/decode_indices.c', 'silk/decode_pulses.c', 'silk/shell_coder.c', 'silk/code_signs.c',
            'silk/stereo_decode_pred.c', 'silk/NLSF_unpack.c', 'silk/decode_frame.c', 'silk/decoder_set_fs.c',
